@@ -306,10 +306,31 @@ func (g Gateway) Set(ctx context.Context, in *hydrapb.SetRequest) (*hydrapb.SetR
 				// anonymous function to handle the treasure
 				func() {
 
-					// create the treasure and start the guard
-					treasureInterface := swampInterface.CreateTreasure(item.Key)
+					// create the treasure and start the guard (without CreateIfNotExist only an existing treasure
+					// is taken, so that a missing key leaves nothing behind)
+					var treasureInterface treasure.Treasure
+					if swampRequest.GetCreateIfNotExist() {
+						treasureInterface = swampInterface.CreateTreasure(item.Key)
+					} else if existing, getErr := swampInterface.GetTreasure(item.Key); getErr == nil && existing != nil {
+						treasureInterface = existing
+					} else {
+						response = append(response, &hydrapb.KeyStatusPair{Key: item.Key, Status: hydrapb.Status_NOT_FOUND})
+						return
+					}
 					guardID := treasureInterface.StartTreasureGuard(true)
 					defer treasureInterface.ReleaseTreasureGuard(guardID)
+
+					// The two tests above ran without the guard: another request may have created or deleted the
+					// treasure since. Decide again now that nobody else can change it.
+					exists := swampInterface.TreasureExists(item.Key)
+					if !swampRequest.GetCreateIfNotExist() && !exists {
+						response = append(response, &hydrapb.KeyStatusPair{Key: item.Key, Status: hydrapb.Status_NOT_FOUND})
+						return
+					}
+					if !swampRequest.Overwrite && exists {
+						response = append(response, &hydrapb.KeyStatusPair{Key: item.Key, Status: hydrapb.Status_NOTHING_CHANGED})
+						return
+					}
 
 					// set the content type and content
 					keyValuesToTreasure(item, treasureInterface, guardID)
